@@ -943,6 +943,7 @@ pub fn gen_program(rng: &mut Rng, rich: bool) -> (ModuleSpec, ProgInfo) {
     m.elems.push(ElemSpec {
         mode: ElemMode::Declared,
         items: ElemItems::Funcs((0..nf as u32).map(|j| N_HOST + j).collect()),
+        ty: None,
     });
     (m, info)
 }
